@@ -472,6 +472,7 @@ package zapcore
 //@   props C05
 //@   flags nopanic
 //@   requires core != nil && level != nil
+//@   modifies nothing
 //@   ensures result.1 == nil ==> (forall l zapcore.Level :: _minLevel <= l && l <= _maxLevel && enabled(level, l) ==> enabled(core, l))
 //@   ensures result.1 == nil ==> typeof(result.0) == type(*levelFilterCore) && as(result.0, type(*levelFilterCore)).core == core && as(result.0, type(*levelFilterCore)).level == level
 //@   ensures result.1 != nil ==> result.0 == nil && (exists l zapcore.Level :: _minLevel <= l && l <= _maxLevel && enabled(level, l) && !enabled(core, l))
